@@ -15,6 +15,7 @@ import (
 	"sort"
 	"strings"
 	"sync/atomic"
+	"time"
 
 	jdoc "github.com/jsightapi/jsight-schema-go-library/formats/json"
 	"github.com/jsightapi/jsight-schema-go-library/notations/jschema"
@@ -79,6 +80,7 @@ func init() {
 			}
 		}
 		var texts, diffs, schemaCheckDiffs int64
+		hw := newHangWatch(60*time.Second, nil)
 		parallelFor(*n, func(i int) {
 			r := rand.New(rand.NewSource(seed()*104729 + int64(i)))
 			var b []byte
@@ -115,6 +117,8 @@ func init() {
 				return
 			}
 			atomic.AddInt64(&texts, 1)
+			hid := hw.begin(b)
+			defer hw.end(hid)
 			t := string(b)
 			ints := bytesToInts(b)
 			// JSON document: Check with and without trailing text, Len
